@@ -16,7 +16,7 @@ use proptest::prelude::*;
 use serde::{Deserialize, Serialize};
 use std::num::NonZeroU64;
 
-pub const RULE: &str = "case = (build configuration, input): Context::default() must report the configured precision and mode; sqrt / cbrt / inverse / round must equal their explicit-context forms (and the oracles) at the configured values; a / b must satisfy the division oracle at the configured precision; exp must deliver the configured number of digits; Display must switch notation exactly at the configured zero counts; {:.N} must round with the configured mode and pad up to the configured limit; non-trivial = the configured value changes the result relative to the default build (100, HalfEven, 5, 15, 1000); distinct = structural hash / enumerated tuples, summed over configurations";
+pub const RULE: &str = "case = (build configuration, input): Context::default() must report the configured precision and mode; sqrt / cbrt / inverse / round must equal their explicit-context forms (and the oracles) at the configured values; a / b must satisfy the division oracle at the configured precision; exp must deliver the configured number of digits; Display must switch notation exactly at the configured zero counts; {:.N} and {:.Ne} must round with the configured mode (values and references print alike) and {:.N} must pad up to the configured limit, printing the unpadded form beyond it; non-trivial = the configured value changes the result relative to the default build (100, HalfEven, 5, 15, 1000); distinct = structural hash / enumerated tuples, summed over configurations";
 pub const EXPLANATION: &str = "Each configuration rebuilds the library through its own build script; the probe learns the configuration from the same environment at its own compile time and, independently, from its command line (a mismatch is an infrastructure error, exit 2) - never from the library. Division is exhaustive over all numerators and denominators below 1000 when the configured precision is 1..3.";
 
 const DEFAULT: BuildCfg = BuildCfg { precision: 100, mode: Mode::HalfEven, lower: 5, upper: 15, padding: 1000, serde_limit: 150000 };
@@ -61,8 +61,24 @@ pub fn check_div(c: &Pair) -> Verdict {
             ensure!(v, false, format!("C20/division-{}", kind), "a / b at configured precision {}: {} (a = {}, b = {}, q = {})", cfg.precision, e, c.a.dec().show(), c.b.dec().show(), dec_of(&q).show());
         }
     }
-    let q2 = a.clone() / b.clone();
-    ensure!(v, dec_of(&q2).eq_val(&dec_of(&q)), "C20/division-forms", "owned and borrowed division differ");
+    // every ownership form has its own DEFAULT_PRECISION site
+    let forms: [(&str, BigDecimal); 3] = [("BD / BD", a.clone() / b.clone()), ("BD / &BD", a.clone() / &b), ("&BD / BD", &a / b.clone())];
+    for (what, q2) in forms {
+        ensure!(v, dec_of(&q2).eq_val(&dec_of(&q)), format!("C20/division-forms:{}", what), "{} = {} but &BD / &BD = {}", what, dec_of(&q2).show(), dec_of(&q).show());
+    }
+    // "deliver the configured number of significant digits": a ROUNDED quotient (q * b != a) has the configured number
+    // of digits - not the default 100, not max(configured, 100). The library never truncates the integer quotient of the
+    // two unscaled integers (21 / 2 at precision 1 is 10 or 11, "at least P digits" in C08's words), so the bound is
+    // max(P, digits of floor(|a.int| / |b.int|)), plus one only when rounding carried into 10..0
+    if quotient_check(&c.a.dec(), &c.b.dec(), &dec_of(&q), cfg.precision).is_ok() && !dec_of(&q).mul(&c.b.dec()).eq_val(&c.a.dec()) {
+        let qd = dec_of(&q);
+        let nd = bdoracle::dec::ndigits(&qd.int);
+        let q0 = c.a.bigint().magnitude() / c.b.bigint().magnitude();
+        let q0d = if q0 == num_bigint::BigUint::from(0u8) { 0 } else { q0.to_string().len() as u64 };
+        let bound = cfg.precision.max(q0d);
+        let carried = nd == bound + 1 && qd.canonical().int.magnitude() == &num_bigint::BigUint::from(1u8);
+        ensure!(v, (cfg.precision..=bound).contains(&nd) || carried, "C20/division-digits", "a / b has {} significant digits but {} were configured (a = {}, b = {})", nd, cfg.precision, c.a.dec().show(), c.b.dec().show());
+    }
     v
 }
 
@@ -146,6 +162,9 @@ pub fn check_exp_digits(c: &ExpArg) -> Verdict {
 pub struct Fmt {
     pub d: D,
     pub prec: Option<u32>,
+    /// {:.Ne} instead of {:.N}
+    #[serde(default)]
+    pub sci: bool,
 }
 
 pub fn check_fmt(c: &Fmt) -> Verdict {
@@ -156,9 +175,29 @@ pub fn check_fmt(c: &Fmt) -> Verdict {
     let scale = c.d.scale as i128;
     let mut v = Verdict::pass(false);
     let show = |s: &str| crate::engine::truncate(s, 120);
+    if let (true, Some(n)) = (c.sci, c.prec) {
+        // {:.Ne}: N + 1 significant digits under the configured mode, on values and references
+        let text = format!("{:.*e}", n as usize, x);
+        let text_ref = format!("{:.*e}", n as usize, x.to_ref());
+        ensure!(v, text == text_ref, "C20/sci-ref-differs", "{{:.{}e}} prints {:?} for the value and {:?} for its reference", n, show(&text), show(&text_ref));
+        let want = bdoracle::round::round_to_prec(&c.d.bigint(), scale, n as u64 + 1, cfg.mode);
+        let want_default = bdoracle::round::round_to_prec(&c.d.bigint(), scale, n as u64 + 1, DEFAULT.mode);
+        v.nontrivial = !want.eq_val(&want_default);
+        let body = text.strip_prefix('-').unwrap_or(&text);
+        let mant = body.split('e').next().unwrap_or("");
+        let shape_ok = body.contains('e') && mant.len() == if n == 0 { 1 } else { n as usize + 2 } && (mant.starts_with(|ch: char| ('1'..='9').contains(&ch)) || want.is_zero());
+        ensure!(v, shape_ok, "C20/sci-shape", "{{:.{}e}} printed {:?}", n, show(&text));
+        match parse_reference(text.as_bytes()) {
+            Some((i, s)) => ensure!(v, Dec::new(i, s as i128).eq_val(&want), "C20/sci-value", "{{:.{}e}} of {} printed {:?} expected the value {} under {}", n, m.show(), show(&text), want.show(), cfg.mode.name()),
+            None => ensure!(v, false, "C20/sci-not-a-numeral", "{:?} is not a numeral", show(&text)),
+        }
+        return v;
+    }
     match c.prec {
         None => {
             let text = format!("{}", x);
+            let text_ref = format!("{}", x.to_ref());
+            ensure!(v, text == text_ref, "C20/display-ref-differs", "Display prints {:?} for the value and {:?} for its reference", show(&text), show(&text_ref));
             let leading = if scale > nd { scale - nd } else { 0 };
             let trailing = if scale < 0 { -scale } else { 0 };
             let want_exp = leading > cfg.lower as i128 || trailing > cfg.upper as i128;
@@ -173,6 +212,8 @@ pub fn check_fmt(c: &Fmt) -> Verdict {
         }
         Some(n) => {
             let text = format!("{:.*}", n as usize, x);
+            let text_ref = format!("{:.*}", n as usize, x.to_ref());
+            ensure!(v, text == text_ref, "C20/precision-ref-differs", "{{:.{}}} prints {:?} for the value and {:?} for its reference", n, show(&text), show(&text_ref));
             let n = n as i128;
             let (_, body) = match text.strip_prefix('-') {
                 Some(r) => (false, r),
@@ -189,6 +230,9 @@ pub fn check_fmt(c: &Fmt) -> Verdict {
             v.nontrivial = unpadded != default_unpadded || want != want_default;
             if unpadded {
                 ensure!(v, !body.contains('.'), "C20/unpadded-has-point", "{:?} should be unpadded (padding {} > limit {})", show(&text), zero_pad, cfg.padding);
+                let digits = c.d.int.trim_start_matches('-');
+                let want_body = if scale < 0 { format!("{}e+{}", digits, -scale) } else { digits.to_string() };
+                ensure!(v, body == want_body, "C20/unpadded-text", "{{:.{}}} beyond the padding limit {} printed {:?}, expected the unpadded form {:?}", n, cfg.padding, show(body), show(&want_body));
                 match parse_reference(text.as_bytes()) {
                     Some((i, s)) => ensure!(v, Dec::new(i, s as i128).eq_val(&m), "C20/unpadded-value", "{:?} does not denote the exact value {}", show(&text), m.show()),
                     None => ensure!(v, false, "C20/precision-not-a-numeral", "{:?} is not a numeral", show(&text)),
@@ -198,7 +242,7 @@ pub fn check_fmt(c: &Fmt) -> Verdict {
                     Some((a, b)) => (a, Some(b)),
                     None => (body, None),
                 };
-                let shape_ok = !ip.is_empty() && ip.bytes().all(|b| b.is_ascii_digit()) && match fp {
+                let shape_ok = !ip.is_empty() && ip.bytes().all(|b| b.is_ascii_digit()) && (ip == "0" || !ip.starts_with('0')) && match fp {
                     None => n == 0,
                     Some(f) => n > 0 && f.len() as i128 == n && f.bytes().all(|b| b.is_ascii_digit()),
                 };
@@ -285,7 +329,7 @@ fn fmt_strategy() -> BoxedStrategy<Fmt> {
                 (7, Some(_)) => (scale.max(nd), Some((scale.max(nd) - nd).clamp(0, 1100) as u32)),
                 (_, p) => (scale, p),
             };
-            Fmt { d: D::new(if neg && digits != "0" { format!("-{}", digits) } else { digits }, scale), prec }
+            Fmt { d: D::new(if neg && digits != "0" { format!("-{}", digits) } else { digits }, scale), prec, sci: aim == 9 && prec.is_some() }
         })
         .boxed()
 }
@@ -338,7 +382,25 @@ pub fn run(ctx: &Ctx) {
             let digits = &"738291"[..nd];
             let int = if neg { format!("-{}", digits) } else { digits.to_string() };
             let scale = if k < lead_n { nd as i64 + k as i64 } else { -((k - lead_n) as i64) };
-            Some(Fmt { d: D::new(int, scale), prec: None })
+            Some(Fmt { d: D::new(int, scale), prec: None, sci: false })
+        },
+        check_fmt,
+    );
+    ctx.enumerated(
+        "precision-format-small",
+        "fmt",
+        3999 * 9 * 5 * 2,
+        true,
+        "EXHAUSTIVE: every |n| < 2000 x scales -2..6 x N 0..4 x {{:.N}}, {{:.Ne}} (value and reference) under the configured rounding mode",
+        |i| {
+            let mut k = i;
+            let sci = k % 2 == 1;
+            k /= 2;
+            let n = (k % 5) as u32;
+            k /= 5;
+            let scale = (k % 9) as i64 - 2;
+            k /= 9;
+            Some(Fmt { d: D::new((k as i64 - 1999).to_string(), scale), prec: Some(n), sci })
         },
         check_fmt,
     );
